@@ -79,6 +79,7 @@ struct Config {
   bool use_deviations = false;
   bool trace = false;            // keep a human readable trace
   long pct_span = 200;           // pct change points are drawn in [0,pct_span)
+  long long tick_ns = 50000000LL; // simulated time per decision point
 };
 
 struct Event { long step; int task; int kind; long obj; long a; };
@@ -115,9 +116,9 @@ bool active();                 // inside run()?
 int self();                    // current task id (-1 outside)
 int self_proc();               // current simulated process (0 outside)
 long now_step();               // simulated time in ticks (one tick per decision point, plus jumps when every task sleeps)
-long long now_ns();            // simulated time in nanoseconds (one tick = 50 ms)
+long long now_ns();            // simulated time in nanoseconds
 void sleep_ns(long long ns);   // the current task sleeps in simulated time
-constexpr long long TICK_NS = 50000000LL;
+long long tick_ns();           // length of one tick of simulated time in this run (Config::tick_ns, default 50 ms)
 
 void point(int kind, long obj = 0);            // decision point (may switch task)
 void event(int kind, long obj = 0, long a = 0);  // observable event (fingerprint + trace), no switch
